@@ -63,7 +63,7 @@ def gen_numzone(rng):
     else:
         zh, zm = '%02d' % rng.randint(0, 23), '%02d' % rng.randint(0, 59)
     pre = pick(rng, ['', '', '', 'GMT', 'UTC', 'gmt', 'UT', 'GMT ', 'Z'])
-    colon = pick(rng, ['', '', ':', '::', ' '])
+    colon = pick(rng, ['', '', ':', ':', '::', ' ', '.', '-', ',', 'h', '：'])
     return f'{pre}{sg}{zh}{colon}{zm}'
 
 def gen_zone(rng, abbrs):
@@ -138,8 +138,13 @@ def mutate(rng, s):
         return s[:i] + s[i + 1:]
     if r < 0.4:
         return s[:i] + s[i] + s[i:]
-    if r < 0.6:
+    if r < 0.5:
         return s[:i] + pick(rng, list('0123456789-+: T:Z') + SPACES + NONSPACES) + s[i + 1:]
+    if r < 0.6:
+        # swap one separator / sign / letter for a look-alike
+        js = [j for j, ch in enumerate(s) if ch in '-:+ TGMUC'] or [i]
+        j = pick(rng, js)
+        return s[:j] + pick(rng, list('.,;/_|-:+ tTzZ') + ['−', '：', '＋', '‐', '–']) + s[j + 1:]
     if r < 0.75 and s[i].isdigit():
         return s[:i] + pick(rng, ODD_DIGITS) + s[i + 1:]
     if r < 0.9:
